@@ -11,9 +11,17 @@ if git apply --whitespace=nowarn /tmp/mf.patch 2>/dev/null; then echo merged
 else
   # shared text files move under every merge: apply the rest, then those with fuzz / rejects
   git apply --whitespace=nowarn --exclude=DESIGN.md --exclude=known_findings.json --exclude=MANIFEST.json /tmp/mf.patch && echo "merged (without shared files)"
-  for f in DESIGN.md known_findings.json MANIFEST.json; do
-    git apply --whitespace=nowarn --include=$f /tmp/mf.patch 2>/dev/null && echo "  $f ok" || { patch -p1 --merge -s < <(filterdiff -i "b/$f" /tmp/mf.patch 2>/dev/null) 2>/dev/null && echo "  $f merged with patch" || echo "  $f NEEDS HAND MERGE"; }
-  done
+  python3 - <<'PY'
+import re,subprocess
+s=open('/tmp/mf.patch').read()
+for part in re.split(r'(?m)^(?=diff -ruN )',s):
+    if not part.startswith('diff -ruN'): continue
+    for f in ['DESIGN.md','known_findings.json','MANIFEST.json']:
+        if part.split('\n')[0].endswith('b/'+f):
+            open('/tmp/mf-one.patch','w').write(part)
+            r=subprocess.run(['patch','-p1','--merge','--no-backup-if-mismatch','-i','/tmp/mf-one.patch'],cwd='/verif',capture_output=True,text=True)
+            print(' ',f,'rc',r.returncode,(r.stdout.strip().splitlines() or [''])[-1])
+PY
 fi
 grep -c '^diff ' /tmp/mf.patch
 rm -rf /tmp/mf
